@@ -53,7 +53,12 @@ def build(e, K=2, S=2, M=1, crowd=0, usage=False, allow_list=True, blur=None,
     x.subs = []        # (conn, bundle, side slot) of connections subscribed in the pre-state
     # other connection first (it subscribed earlier)
     x.other = None
-    if o_shape != "none":
+    if o_shape == "idle0":
+        # bound to bundle 0's app, holds nothing
+        o = w.new_conn("o1")
+        w.bind(o, B[0].app, e.sym_str("o.side"))
+        x.other = o
+    elif o_shape != "none":
         bj = {"sub0s0": 0, "sub0s1": 0, "sub1s0": 1}[o_shape]
         sj = {"sub0s0": 0, "sub0s1": 1, "sub1s0": 0}[o_shape]
         if bj >= len(B) or sj >= len(B[bj].sides):
@@ -67,6 +72,12 @@ def build(e, K=2, S=2, M=1, crowd=0, usage=False, allow_list=True, blur=None,
             raise Inconclusive("setup: could not subscribe other connection (%r)" % (ex,))
         x.other = o
         x.subs.append((o, b, sj))
+    if a_shape == "none":
+        x.app = x.side = x.c = None
+        x.pre = w.load_prestate()
+        x.pre_usage = w.pre_usage
+        index_bundles(w)
+        return x
     c = w.new_conn("c0", open_=(a_shape != "unopened"))
     if a_shape in ("unbound", "unopened"):
         x.app, x.side = None, None
@@ -332,14 +343,147 @@ def fval(rec, key):
 
 
 def eqv(a, b):
-    """term: two values (proxy / python / None) are equal"""
+    """term: two values (proxy / python / None) are equal (values of different storage classes never are)"""
+    from sx.engine import kind_of
     if a is None or b is None:
         return T if (a is None and b is None) else F
+    ka, kb = kind_of(a), kind_of(b)
+    if (ka == "s") != (kb == "s"):
+        return F
     za, zb = Z(a), Z(b)
     if za.sort() != zb.sort():
-        if {za.sort(), zb.sort()} == {z3.IntSort(), z3.RealSort()}:
-            za = z3.ToReal(za) if za.sort() == z3.IntSort() else za
-            zb = z3.ToReal(zb) if zb.sort() == z3.IntSort() else zb
-        else:
-            return F
+        za = z3.ToReal(za) if z3.is_int(za) else za
+        zb = z3.ToReal(zb) if z3.is_int(zb) else zb
     return za == zb
+
+
+def col_value(snap, table, r, col):
+    """python value / proxy of a snapshot row's column (kind-aware)"""
+    from sx.engine import W
+    kinds = {c["name"]: c["sort"] for c in snap.catalog[table]}
+    return W(r.v[col], kinds[col])
+
+
+# ---------------------------------------------------------------------------------------------
+# usage records (C15 / C16): reference summaries as z3 terms
+# ---------------------------------------------------------------------------------------------
+def two_smallest(items):
+    """items: [(present, value)] -> (n, t0, t1): count of present values, smallest and second
+    smallest present value (t0/t1 meaningless when n < 1 / n < 2)"""
+    n = count([p for p, _ in items])
+    BIG = None
+    t0, has0 = z3.RealVal(0), F
+    t1, has1 = z3.RealVal(0), F
+    for p, v in items:
+        # insert v into the running (t0, t1)
+        lt0 = Or(z3.Not(has0), v < t0)
+        lt1 = Or(z3.Not(has1), v < t1)
+        nt0 = z3.If(And(p, lt0), v, t0)
+        nt1 = z3.If(p, z3.If(lt0, t0, z3.If(lt1, v, t1)), t1)
+        nh1 = z3.If(p, z3.If(lt0, has0, T), has1)
+        nh0 = Or(has0, p)
+        t0, t1, has0, has1 = nt0, nt1, nh0, nh1
+    return n, t0, t1
+
+
+def blurred(t, blur):
+    """the stored start time: exactly the code's expression  blur * (t // blur)  (symbolic interval:
+    uninterpreted umul/ufdiv, see engine; the arithmetic itself is the C16 kernel obligation)"""
+    if blur is None:
+        return t
+    return Z(blur * (SNum(t) // blur))
+
+
+def S_(s):
+    return Z(s)
+
+
+def nameplate_summary(rows, when, pruned, blur):
+    """rows: [(present, added)] -> dict of expected usage column terms"""
+    n, t0, t1 = two_smallest(rows)
+    result = z3.If(n > 2, S_("crowded"), z3.If(pruned, S_("pruney"), z3.If(n == 2, S_("happy"), S_("lonely"))))
+    return dict(n=n, started=blurred(t0, blur), raw_started=t0, waiting_null=z3.Not(n > 1), waiting=t1 - t0,
+                total=when - t0, result=result)
+
+
+def mailbox_summary(rows, when, pruned, blur):
+    """rows: [(present, added, mood_null, mood)]"""
+    n, t0, t1 = two_smallest([(p, a) for p, a, _, _ in rows])
+    def any_mood(m):
+        return Or(*[And(p, z3.Not(mn), mv == S_(m)) for p, _, mn, mv in rows])
+    base = z3.If(n == 0, S_("quiet"), z3.If(n == 1, S_("lonely"), S_("happy")))
+    r = z3.If(any_mood("lonely"), S_("lonely"), base)
+    r = z3.If(any_mood("errory"), S_("errory"), r)
+    r = z3.If(any_mood("scary"), S_("scary"), r)
+    r = z3.If(pruned, S_("pruney"), r)
+    r = z3.If(n > 2, S_("crowded"), r)
+    return dict(n=n, started=blurred(t0, blur), raw_started=t0, waiting_null=z3.Not(n > 1), waiting=t1 - t0,
+                total=when - t0, result=r)
+
+
+def usage_row_matches(r, app, summ, for_np=None):
+    parts = [r.p, z3.Not(r.n["app_id"]), r.v["app_id"] == Z(app),
+             z3.Not(r.n["started"]), r.v["started"] == summ["started"],
+             z3.Not(r.n["total_time"]), r.v["total_time"] == summ["total"],
+             r.n["waiting_time"] == summ["waiting_null"],
+             Implies(z3.Not(summ["waiting_null"]), r.v["waiting_time"] == summ["waiting"]),
+             z3.Not(r.n["result"]), r.v["result"] == summ["result"]]
+    if for_np is not None:
+        parts += [z3.Not(r.n["for_nameplate"]), (r.v["for_nameplate"] != 0) == for_np]
+    return And(*parts)
+
+
+def usage_asserts(A, x, pre, post, when, pruned, blur, own_mood=None, transient_mb=None):
+    """C15/C16: new usage rows <-> nameplates / mailboxes deleted by this operation.
+    own_mood: (bundle-side predicate list builder) for close: the closing side's row carries the
+    command's mood when the summary is taken: function (bundle, slot index) -> None | (mood_null, mood)"""
+    w = x.w
+    if w.usage is None:
+        return
+    upre, upost = x.pre_usage, w.usage.snapshot()
+    new_np = upost.tables["nameplates"][len(upre.tables["nameplates"]):]
+    new_mb = upost.tables["mailboxes"][len(upre.tables["mailboxes"]):]
+    np_del, mb_del = [], []
+    for b in w.bundles:
+        gone_np = And(b.has_np, nameplate_gone(b, post))
+        rows = [(r.p, r.v["added"]) for r in rows_of(b, pre, "nameplate_sides")]
+        np_del.append((gone_np, b, nameplate_summary(rows, when, pruned, blur)))
+        gone_mb = And(b.p, mailbox_gone(b, post))
+        mrows = []
+        for i, r in enumerate(rows_of(b, pre, "mailbox_sides")):
+            mn, mv = r.n["mood"], r.v["mood"]
+            if own_mood is not None:
+                o = own_mood(b, i)
+                if o is not None:
+                    cond, (omn, omv) = o
+                    mn, mv = z3.If(cond, omn, mn), z3.If(cond, omv, mv)
+            # row.get("mood") is falsy for NULL and for the empty string
+            mrows.append((r.p, r.v["added"], Or(mn, mv == S_("")), mv))
+        mb_del.append((gone_mb, b, mailbox_summary(mrows, when, pruned, blur)))
+    class _B:      # a mailbox created and retired inside this very operation (close of an unknown id)
+        pass
+    for (cond, app, rows_, fornp) in (transient_mb or []):
+        tb = _B()
+        tb.app, tb.for_np = app, fornp
+        mb_del.append((cond, tb, mailbox_summary(rows_, when, pruned, blur)))
+    parts = [count([r.p for r in new_np]) == count([c for c, _, _ in np_del]),
+             count([r.p for r in new_mb]) == count([c for c, _, _ in mb_del])]
+    for c, b, sm in np_del:
+        parts.append(Implies(c, Or(*[usage_row_matches(r, b.app, sm) for r in new_np])))
+    for r in new_np:
+        parts.append(Implies(r.p, Or(*[And(c, usage_row_matches(r, b.app, sm)) for c, b, sm in np_del])))
+    for c, b, sm in mb_del:
+        parts.append(Implies(c, Or(*[usage_row_matches(r, b.app, sm, for_np=b.for_np) for r in new_mb])))
+    for r in new_mb:
+        parts.append(Implies(r.p, Or(*[And(c, usage_row_matches(r, b.app, sm, for_np=b.for_np))
+                                       for c, b, sm in mb_del])))
+    A["C15.records"] = And(*parts)
+    # C16: every new start time is the blur expression applied to the true arrival time; that this
+    # expression rounds down to a multiple of the interval is the C16 arithmetic kernel
+    if blur is not None:
+        bl = []
+        for rows_, dels in ((new_np, np_del), (new_mb, mb_del)):
+            for r in rows_:
+                bl.append(Implies(r.p, Or(*[And(c, r.v["started"] == sm["started"]) for c, b, sm in dels])))
+        A["C16.blurred"] = And(*bl)
+    A["C15.committed"] = not (w.usage.dirty or w.usage.in_tx)
